@@ -499,10 +499,13 @@ class Flow:
             if f0 is None:
                 return None
             done = []
+            earlier = []     # an arm is entered only when no earlier arm was: (its pattern && its guard) is false for each of them
             for a in e[2]:
                 pat = a[0]
                 lit = pat[1] if is_node(pat) and pat[0] == "plit" and is_node(pat[1]) and pat[1][0] == "bool" else None
-                fa = f0 + ([(e[1], bool(lit[1]))] if lit is not None else [(["marm", e[1], pat], True)])
+                taken = ["marm", e[1], pat]
+                fa = f0 + earlier + ([(e[1], bool(lit[1]))] if lit is not None else [(taken, True)])
+                earlier = earlier + [((["bin", "&&", taken, a[1]] if a[1] is not None else taken), False)]
                 if a[1] is not None:
                     fa = self.expr(a[1], fa, d)
                     if fa is None:
